@@ -33,8 +33,16 @@ AST on every run):
 * `beta_gravity_constants`: the regenerated constants are Vallado's WGS-72 set and `k_e` (an expression in the source)
   is within 1e-9 of 0.0743669161.
 
+* `beta_a0_reference` / `beta_a0_kepler_law`: the cached semi-major axis and mean motion of the setter satisfy the
+  reference implementation's relation `ao = (xke / no'')^(2/3)`, i.e. `no''·ao^(3/2) = k_e` (Vallado's `initl`).
+
 NOT a theorem (oracle only, see evidence): "the native model equals the reference within 1 cm" — it compares two
-floating-point programs, one of them third-party.  It is false of the current code (finding C07-native-a0-series).
+floating-point programs, one of them third-party.
+
+History: until /repo commit 565c5a9 the setter recovered `a0''` with Spacetrack Report 3's truncated series
+`a0/(1 - δ0)`; `beta_a0_reference` was false of that code (the two differ at second order in δ0 ≈ 1e-3·…, 2e-11 relative)
+and the oracle found 2–20 cm after 2–4 weeks (finding C07-native-a0-series, now fixed).  The theorem is stated about the
+regenerated `sgp4Init`, so it stops checking if the series returns.
 -/
 namespace BeyondVerif.C07
 open BeyondVerif.Sgp4Wrap
@@ -204,5 +212,37 @@ theorem beta_gravity_constants :
   constructor
   · rw [lt_sub_iff_add_lt, lt_div_iff₀ hpos]; linarith
   · rw [sub_lt_iff_lt_add, div_lt_iff₀ hpos]; linarith
+
+/-- Clause "the native implementation returns the same state as the reference", the one relation of the initialisation
+that is not a truncated series: for ALL elements the cached `a0` (index 2 of `sgp4Init`, regenerated from the setter) is
+`(k_e / n0'')^(2/3)` of the cached un-Kozai'd mean motion `n0''` (index 3) — exactly the reference's
+`ao = pow(xke / no_unkozai, x2o3)`. -/
+theorem beta_a0_reference (i0 Ω0 e0 ω0 M0 n0 bstar : ℝ) :
+    (sgp4Init i0 Ω0 e0 ω0 M0 n0 bstar).getD 2 0
+      = Real.rpow (g_k_e / (sgp4Init i0 Ω0 e0 ω0 M0 n0 bstar).getD 3 0) (2 / 3) := by
+  unfold sgp4Init
+  simp only [List.getD_cons_succ, List.getD_cons_zero]
+
+/-- … hence Kepler's third law in the reference's units, `n0''·a0^(3/2) = k_e`, whenever `n0''` is positive -/
+theorem beta_a0_kepler_law (i0 Ω0 e0 ω0 M0 n0 bstar : ℝ) (hn : 0 < (sgp4Init i0 Ω0 e0 ω0 M0 n0 bstar).getD 3 0) :
+    (sgp4Init i0 Ω0 e0 ω0 M0 n0 bstar).getD 3 0 * Real.rpow ((sgp4Init i0 Ω0 e0 ω0 M0 n0 bstar).getD 2 0) (3 / 2) = g_k_e := by
+  have hk : (0 : ℝ) < g_k_e := by
+    have := beta_gravity_constants.2.2.2.2.2.2.2
+    rw [abs_lt] at this
+    have h' : (0.0743669161 : ℝ) - 1e-9 > 0 := by norm_num
+    linarith [this.1]
+  rw [beta_a0_reference]
+  generalize (sgp4Init i0 Ω0 e0 ω0 M0 n0 bstar).getD 3 0 = n at hn ⊢
+  have hx : 0 ≤ g_k_e / n := le_of_lt (div_pos hk hn)
+  have : Real.rpow (Real.rpow (g_k_e / n) (2 / 3)) (3 / 2) = g_k_e / n := by
+    show ((g_k_e / n) ^ ((2 : ℝ) / 3)) ^ ((3 : ℝ) / 2) = g_k_e / n
+    rw [← Real.rpow_mul hx]
+    norm_num
+  rw [this]
+  field_simp
+
+/-- the hypothesis is satisfiable: ISS-like elements give a positive `n0''` … checked numerically by the correspondence run;
+here: the list has the twenty entries the composition pattern-matches on -/
+example : (sgp4Init 0.9 4.3 0.0007 2.2 5.6 0.00113 0.0001).length = 20 := rfl
 
 end BeyondVerif.C07
